@@ -79,7 +79,7 @@ func genC05(t *rapid.T) any {
 		avail = tb.Cols[:len(c.Cols)]
 	}
 	if rapid.IntRange(0, 2).Draw(t, "haswhere") == 0 {
-		c.Where = genPred(t, tb, &PredSpec{Core: true}, 1, "w")
+		c.Where = genPred(t, tb, &PredSpec{Core: rapid.Bool().Draw(t, "wcore")}, 1, "w")
 	}
 	nk := rapid.IntRange(0, 3).Draw(t, "nkeys")
 	if nk > len(avail) {
